@@ -113,6 +113,7 @@ type machine struct {
 	initDone     map[*ssa.Function]bool
 	fnSeen       map[*ssa.Function]bool
 	uninit       map[*value]string
+	lazyInits    int
 	wraps        map[*extErr]*wrapErr
 	chosen       map[string]uint64
 	poolMode     int
@@ -305,7 +306,12 @@ func (m *machine) initGlobals() error {
 	m.maxSteps = 200_000_000
 	m.initDone = map[*ssa.Function]bool{}
 	var ierr error
-	for _, pkg := range []*ssa.Package{m.world.mainPkg} {
+	// every interpretable package, dependencies first: an initialiser that is
+	// only reachable through a package whose init is not interpreted (httpguts
+	// through net/http) must still run
+	pkgs := append([]*ssa.Package{}, m.world.initPkgs...)
+	pkgs = append(pkgs, m.world.mainPkg)
+	for _, pkg := range pkgs {
 		fn := pkg.Func("init")
 		if fn == nil {
 			continue
